@@ -233,16 +233,30 @@ func ruleC20(c *Ctx) {
 			if !ok || stE == broken {
 				return
 			}
-			if n := calleeName(cl); n != "(*encoding/xml.Decoder).DecodeElement" && n != "(*encoding/xml.Decoder).Decode" {
+			if n := calleeName(cl); n != "(*encoding/xml.Decoder).DecodeElement" && n != "(*encoding/xml.Decoder).Decode" && n != "(*encoding/xml.Decoder).Skip" {
 				return
 			}
-			used := false
+			used, onlyNil := false, true
 			if cl.Referrers() != nil {
 				for _, r := range *cl.Referrers() {
-					if _, isDbg := r.(*ssa.DebugRef); !isDbg {
+					switch x := r.(type) {
+					case *ssa.DebugRef:
+					case *ssa.BinOp:
 						used = true
+						k, isK := x.Y.(*ssa.Const)
+						if x.X != ssa.Value(cl) {
+							k, isK = x.X.(*ssa.Const)
+						}
+						if !isK || !k.IsNil() || (x.Op != token.EQL && x.Op != token.NEQ) {
+							onlyNil = false
+						}
+					default:
+						used, onlyNil = true, false
 					}
 				}
+			}
+			if used && onlyNil {
+				stE, whyE = broken, "the error returned by "+strings.TrimPrefix(calleeName(cl), "(*encoding/xml.Decoder).")+" is only compared with nil: it is never sent or kept, so a stream that is cut off or damaged there ends the parse (or goes on) without any error being reported"
 			}
 			if !used {
 				stE, whyE = broken, "the error returned by "+strings.TrimPrefix(calleeName(cl), "(*encoding/xml.Decoder).")+" is discarded: an entry that fails to decode (a malformed value, a truncated element) is delivered half-filled and no error is reported for it"
